@@ -178,6 +178,7 @@ func finish(ctx *Ctx, r *Result, started time.Time, seed int64) int {
 		}
 	}
 	var bad []Obligation
+	knownHit := []string{}
 	discharged, inspected := 0, 0
 	distinct := map[string]bool{}
 	for _, o := range r.Obls {
@@ -194,6 +195,7 @@ func finish(ctx *Ctx, r *Result, started time.Time, seed int64) int {
 			if k.Property == r.Property && k.Rule == o.Rule && k.Construct == o.Construct {
 				fmt.Printf("KNOWN-FINDING: property=%s %s: %s\n", r.Property, o.Key(), o.Detail)
 				isKnown = true
+				knownHit = append(knownHit, o.Key()+": "+o.Detail)
 			}
 		}
 		if !isKnown {
@@ -241,6 +243,7 @@ func finish(ctx *Ctx, r *Result, started time.Time, seed int64) int {
 		"coverage": map[string]any{
 			"explanation":                   r.Explanation,
 			"not_decided":                   r.NotDecided,
+			"known_findings":                knownHit,
 			"obligations":                   len(r.Obls),
 			"discharged":                    discharged,
 			"evaluations":                   inspected,
